@@ -113,6 +113,8 @@ type c17Route struct {
 	rd    string
 	vrf   string // originated in this VRF (API with VRFID, or a CE announcement); "" otherwise
 	label uint32 // expected label for a VRF-originated route
+	stale bool   // retained by gobgp after its source went down gracefully (RFC 4724), not yet announced again
+	refed bool   // its source had a soft-reset-in without a modifying import policy since: the SAME path object was fed to the table again
 	rel   string // API route originated in a VRF: the NLRI text as handed to AddPath (before the RD was put in)
 }
 
